@@ -155,8 +155,12 @@ package bgp
 //@   ensures len(result0) == (len(value) % 65536 > 255 || p.Flags & 16 != 0 ? 4 : 3) + len(value)
 
 //@ func (*PathAttributeOrigin).DecodeFromBytes
+//@   tag C05 C04 C06
 //@   modifies p.*
 //@   ensures err != nil ==> freshMsgErr(err)
+// from C06: "session reset with the RFC 4271 NOTIFICATION code/subcode": an ORIGIN whose header decoded but whose
+// length is not 1 is an Attribute Length Error (3/5), like every other fixed-length attribute
+//@   at-return requires err == nil && p.Length != 1 ==> errIs(ret0, BGP_ERROR_UPDATE_MESSAGE_ERROR, BGP_ERROR_SUB_ATTRIBUTE_LENGTH_ERROR)
 //@ func (*PathAttributeNextHop).DecodeFromBytes
 //@   modifies p.*
 //@   ensures err != nil ==> freshMsgErr(err)
